@@ -1,0 +1,115 @@
+// Verification hooks.  This whole module only exists when the crate is built
+// with `--cfg dropshot_verif`; nothing in a normal build refers to it.
+//
+// `emit()` appends one JSON object per line to a process-wide, totally
+// ordered event log.  The sequence number is assigned while holding the same
+// lock that protects the sink, so the order of lines is the order of `emit`
+// calls across all threads.  No wall-clock time is recorded.
+
+use std::future::Future;
+use std::io::Write;
+use std::sync::Mutex;
+
+enum Sink {
+    Unset,
+    Off,
+    Memory(Vec<String>),
+    File(std::fs::File),
+}
+
+struct State {
+    seq: u64,
+    sink: Sink,
+}
+
+static STATE: Mutex<State> = Mutex::new(State { seq: 0, sink: Sink::Unset });
+
+fn lock() -> std::sync::MutexGuard<'static, State> {
+    match STATE.lock() {
+        Ok(g) => g,
+        Err(p) => p.into_inner(),
+    }
+}
+
+/// Record events in memory (replacing any previous sink).
+pub fn install_memory_sink() {
+    let mut st = lock();
+    st.sink = Sink::Memory(Vec::new());
+}
+
+/// Take (and clear) the events recorded in memory so far.
+pub fn take_memory() -> Vec<String> {
+    let mut st = lock();
+    match &mut st.sink {
+        Sink::Memory(v) => std::mem::take(v),
+        _ => Vec::new(),
+    }
+}
+
+/// Append one event.  `fields` must be a JSON object (or null).
+pub fn emit(ev: &str, fields: serde_json::Value) {
+    let mut st = lock();
+    if let Sink::Unset = st.sink {
+        st.sink = match std::env::var_os("DROPSHOT_VERIF_TRACE") {
+            Some(dir) => {
+                let mut p = std::path::PathBuf::from(dir);
+                let _ = std::fs::create_dir_all(&p);
+                p.push(format!("{}.ndjson", std::process::id()));
+                match std::fs::OpenOptions::new()
+                    .create(true)
+                    .append(true)
+                    .open(&p)
+                {
+                    Ok(f) => Sink::File(f),
+                    Err(_) => Sink::Off,
+                }
+            }
+            None => Sink::Off,
+        };
+    }
+    if let Sink::Off = st.sink {
+        return;
+    }
+    st.seq += 1;
+    let mut obj = serde_json::Map::new();
+    obj.insert("seq".to_string(), serde_json::Value::from(st.seq));
+    obj.insert("ev".to_string(), serde_json::Value::from(ev));
+    if let serde_json::Value::Object(m) = fields {
+        for (k, v) in m {
+            obj.insert(k, v);
+        }
+    }
+    let line = serde_json::Value::Object(obj).to_string();
+    match &mut st.sink {
+        Sink::Memory(v) => v.push(line),
+        Sink::File(f) => {
+            let _ = writeln!(f, "{}", line);
+        }
+        _ => {}
+    }
+}
+
+/// Lower-case hex of arbitrary bytes (so that any request target can be
+/// logged without caring about its encoding).
+pub fn hex(bytes: &[u8]) -> String {
+    let mut s = String::with_capacity(bytes.len() * 2);
+    for b in bytes {
+        s.push_str(&format!("{:02x}", b));
+    }
+    s
+}
+
+/// Wrap a handler future so that its completion (not its cancellation) is
+/// recorded.
+pub async fn traced_handler<F, T, E>(id: String, fut: F) -> Result<T, E>
+where
+    F: Future<Output = Result<T, E>>,
+{
+    emit("handler_call", serde_json::json!({ "id": id }));
+    let r = fut.await;
+    emit(
+        "handler_return",
+        serde_json::json!({ "id": id, "ok": r.is_ok() }),
+    );
+    r
+}
